@@ -108,7 +108,7 @@ def run(ctx):
     raw_sites = [(g, bb, t) for g, bb, t in facts.all_calls(lambda t: t.get("callee") in ("std::io::Read::read", "std::io::Read::read_vectored"))]
     sites = []
     for g, bb, t in raw_sites:
-        for R, b in shared.lift_sites(facts, g, bb):
+        for R, b in shared.lift_sites(facts, g, bb, std=True):
             sites.append((R, b, R.term(b)))
     # reads of the APPLICATION's response body (the reader stored in a Response) are not reads of client bytes: how that reader
     # segments its data is the application's business, not this property's
